@@ -67,7 +67,7 @@ Fixpoint run_sub (full sub : model) (steps : list stepdata) (e : env) : env * li
   match steps with
   | [] => (e, [], true)
   | (ext, forced) :: rest =>
-      let '(e1, ok) := forward sub (proxies full forced e) (clamps full forced) ext e in
+      let '(e1, ok) := ModelSem.forward sub (proxies full forced e) (clamps full forced) ext e in
       if ok then let '(e2, es, ok2) := run_sub full sub rest e1 in (e2, e1 :: es, ok2) else (e1, [], false)
   end.
 
@@ -151,7 +151,7 @@ Fixpoint esn_run (full sub : model) (steps : list stepdata) (e : env) : env * li
   match steps with
   | [] => (e, [], true)
   | (ext, forced) :: rest =>
-      let '(e1, ok) := forward sub (proxies full forced e) (fun _ => None) ext e in
+      let '(e1, ok) := ModelSem.forward sub (proxies full forced e) (fun _ => None) ext e in
       if ok then let '(e2, es, ok2) := esn_run full sub rest e1 in (e2, e1 :: es, ok2) else (e1, [], false)
   end.
 Definition esn_seq (dres drd : ndesc) (X Y : list (nat * data)) (e : env) (j T : nat) : list env * bool :=
